@@ -74,9 +74,10 @@ class BaseRandomLineAccessFile(collections.abc.Sequence, Generic[C], ABC):
             for n in range(len(self)):
                 yield self._get_item(n)
         else:
-            self._file_seek(0)
             for n in range(len(self)):
-                yield self._read_next_line()
+                # every line is read from its own offset: the handle's position is shared with random accesses and
+                # other iterations, and the index may be a subset or permutation of the lines
+                yield self._read_line(n)
 
     @abstractmethod
     def _file_seek(self, offset: int):
